@@ -51,6 +51,15 @@ func AcquireDirLock(dir string, fs vfs.FS) (*DirLock, error) {
 		}
 		return nil, err
 	}
+	// The previous holder unlinks LOCK when it releases. If that happened
+	// between our open and our flock we hold a lock on an unlinked inode that no
+	// later contender will ever see: only a lock on the file the path still
+	// names counts.
+	pathInfo, perr := fs.Stat(lockPath)
+	fileInfo, ferr := f.Stat()
+	if perr != nil || ferr != nil || !os.SameFile(pathInfo, fileInfo) {
+		return nil, fmt.Errorf("dirlock: directory %q already in use (lock file replaced during acquisition)", dir)
+	}
 	if err := f.Truncate(0); err == nil {
 		pid := os.Getpid()
 		host := ""
@@ -70,21 +79,24 @@ func (l *DirLock) Release() error {
 		return nil
 	}
 	var firstErr error
+	// Unlink while the lock is still held: a contender either finds the old
+	// (locked) file and is refused, or finds no file and creates a fresh one.
+	fs := vfs.Ensure(l.fs)
+	if err := fs.Remove(l.path); err != nil && !errors.Is(err, os.ErrNotExist) {
+		firstErr = err
+	}
+	verifhook.Yield(l, "dirlock.release.unlinked")
 	if fd, ok := vfs.FileFD(l.file); ok {
-		if err := syscall.Flock(int(fd), syscall.LOCK_UN); err != nil {
+		if err := syscall.Flock(int(fd), syscall.LOCK_UN); err != nil && firstErr == nil {
 			firstErr = err
 		}
-	} else {
+	} else if firstErr == nil {
 		firstErr = fmt.Errorf("dirlock: file %q does not expose descriptor", l.path)
 	}
 	if err := l.file.Close(); err != nil && firstErr == nil {
 		firstErr = err
 	}
 	verifhook.Yield(l, "dirlock.release.unlocked")
-	fs := vfs.Ensure(l.fs)
-	if err := fs.Remove(l.path); err != nil && !errors.Is(err, os.ErrNotExist) && firstErr == nil {
-		firstErr = err
-	}
 	l.file = nil
 	return firstErr
 }
